@@ -76,6 +76,23 @@ for _ty, _lens in (("u64", ((2, "quick"), (3, "quick"), (4, "thorough"), (5, "th
           "rle_validate_encoding is total; if it accepts, the UNCHECKED decoder (unwrap / unchecked slicing) walks the same bytes without panicking and yields exactly `len` items",
           tier=_t, timeout=900 if _t == "quick" else 1800)
 
+H("G-HEX-rle", "rle_loader_item_count_no_overflow", "C35 C15 C17", "a null run of ANY count >= 1 followed by a repeat run of ANY count in 2..=i64::MAX (what the decoder can hand over), through the loader's own guard + bookkeeping; loop-free",
+  "RleLoadIter's per-slab item count (CutState::check_len + track) never overflows: an oversized segment is refused")
+
+group("G-HEX-bool", "hexane", "hx_bool.rs", "bool",
+      ["bool::bool_validate_encoding::<Leb128>", "bool::BoolDecoder::{new,next,nth,advance_run}", "codec::Codec::read_count"],
+      stubs=["<Leb128 as Codec>::{read_unsigned,read_signed,try_read_unsigned,try_read_signed} -> reference readers (see G-HEX-rle)", "alloc::fmt::format -> empty String"],
+      assumptions=["slab = every byte string of the stated fixed length; the first 4 items are pulled; oracle = an independent reading of the alternating run lengths"])
+for _n, _t in ((2, "quick"), (3, "quick"), (4, "thorough")):
+    H("G-HEX-bool", "bool_validate_then_decode_len%d" % _n, "C35 C15 C16", "EVERY %d-byte slab of a boolean column; unwind 9" % _n,
+      "bool_validate_encoding is total; if it accepts, BoolDecoder yields exactly `len` items, each equal to the independent reading (first run false, alternating)", tier=_t, timeout=900)
+for _n, _t in ((3, "quick"), (4, "thorough")):
+    H("G-HEX-bool", "bool_nth_matches_oracle_len%d" % _n, "C35", "EVERY accepted %d-byte slab, every k < 4; unwind 9" % _n,
+      "nth(k) = item k of the independent reading (None exactly past the end) and the decoder continues with item k+1", tier=_t, timeout=900)
+
+H("G-HEX-bool", "bool_load_two_max_runs_concrete", "C35 C15 C17", "CONCRETE input: two runs of u64::MAX items (two 10-byte varints, 20 bytes), default segment budget; unwind 12",
+  "BoolLoadIter::finalize answers Ok or Err; the item count accumulated from untrusted run lengths does not overflow (replayable witness)")
+
 # harnesses in the crate root module are named "verif_kani::<fn>" (no leading module path)
 for _h in HARNESSES:
     if _h["name"].startswith("::"):
